@@ -350,13 +350,18 @@ func TestVerifC13Leaks(t *testing.T) {
 				panic(err)
 			}
 			bproto := life.proto
-			B1 := r.NewPuppet("by1", bproto, "")
+			// in a third of the cases the victim shares its IP address with a bystander that stays connected
+			sharedIP := ""
+			if c.Chance(0.33) {
+				sharedIP = fmt.Sprintf("10.77.%d.%d", c.Intn(200), 1+c.Intn(200))
+			}
+			B1 := r.NewPuppet("by1", bproto, sharedIP)
 			B2 := r.NewPuppet("by2", bproto, "")
 			for _, b := range []*vPuppet{B1, B2} {
 				r.Attach(b, c.Chance(0.5))
 				b.Send(me, vSubRPC(true, "t"))
 			}
-			V := r.NewPuppet("victim", life.proto, "")
+			V := r.NewPuppet("victim", life.proto, sharedIP)
 			vid := V.ID()
 			if life.refuse {
 				V.Refuse(true)
